@@ -43,7 +43,11 @@ def opObserved : Op := fun j => do
 
 def opIntegrate : Op := fun j => do
   let thr ← fRatList j "thr"; let rows ← fFlMat j "rows"
-  pure <| outFlList (rows.map (SV.Model.Cdf.integrateSq thr))
+  match fieldOpt j "pw" with
+  | none => pure <| outFlList (rows.map (SV.Model.Cdf.integrateSq thr))
+  | some p => do
+    let pw ← getFlMat p
+    pure <| outFlList (List.zipWith (SV.Model.Cdf.integrateSqW thr) rows pw)
 
 def opFill : Op := fun j => do
   let thr ← fRatList j "thr"; let rows ← fFlMat j "rows"; let m ← fStr j "method"; let k ← fInt j "min_nonnan"
